@@ -1022,7 +1022,7 @@ where
             return Self::send_status(exchange, IMStatusCode::ResourceExhausted).await;
         };
 
-        let primed = self.report_data(&mut rctx, &mut tx, exchange, true).await?;
+        let (primed, _) = self.report_data(&mut rctx, &mut tx, exchange, true).await?;
 
         if primed {
             exchange
@@ -1355,11 +1355,14 @@ where
                 let result = self.process_subscription(matter, &mut rctx).await;
 
                 match result {
-                    Ok(true) => rctx.set_keep(),
+                    Ok((true, true)) => rctx.set_keep(),
+                    // Nothing to report and nothing sent: do not restart the
+                    // liveness clock, the subscriber did not hear from us.
+                    Ok((true, false)) => rctx.set_keep_unsent(),
                     // Not kept: the subscriber tore the subscription down (or we
                     // could not report). Dropping it from the table on `rctx`
                     // drop means its persisted record must be purged too.
-                    Ok(false) => dropped_any = true,
+                    Ok((false, _)) => dropped_any = true,
                     Err(e) => {
                         // Reporting failed — typically because the session to the
                         // subscriber died (peer unreachable, MRP retransmissions
@@ -1414,7 +1417,7 @@ where
         &self,
         matter: &Matter<'_>,
         rctx: &mut ReportContext<'_, '_, B, NS>,
-    ) -> Result<bool, Error> {
+    ) -> Result<(bool, bool), Error> {
         // Route the report by the subscriber's `(fabric, node)`: reuse the best
         // live session to that peer, or (with the `case-responder-only` feature
         // off) establish a fresh one on demand. A subscription is identified by
@@ -1427,20 +1430,20 @@ where
             // Always safe as `IMBuffer` is defined to be `MAX_EXCHANGE_RX_BUF_SIZE`, which is bigger than `MAX_EXCHANGE_TX_BUF_SIZE`
             unwrap!(tx.resize_default(MAX_EXCHANGE_TX_BUF_SIZE));
 
-            let primed = self
+            let (primed, sent) = self
                 .report_data(rctx, &mut tx, &mut exchange, false)
                 .await?;
 
             exchange.acknowledge().await?;
 
-            Ok(primed)
+            Ok((primed, sent))
         } else {
             error!(
                 "No TX buffer available for processing subscription {:?}",
                 rctx.subscription().ids(),
             );
 
-            Ok(false)
+            Ok((false, false))
         }
     }
 
@@ -1503,7 +1506,7 @@ where
         tx: &mut [u8],
         exchange: &mut Exchange<'_>,
         with_dataver: bool,
-    ) -> Result<bool, Error>
+    ) -> Result<(bool, bool), Error>
     where
         T: DataModel,
     {
@@ -1550,7 +1553,7 @@ where
             );
         }
 
-        Ok(sub_valid)
+        Ok((sub_valid, resp.sent))
     }
 
     /// A utility to fetch a pair of TX/RX buffers for processing an Interaction Model request.
@@ -1876,6 +1879,8 @@ struct ReportDataResponder<'a, 'b, 'c, const NE: usize, C> {
     invoker: HandlerInvoker<'b, 'c, C>,
     event_reader: EventReader,
     events: &'a Events<NE>,
+    /// Whether at least one `ReportData` message went out.
+    sent: bool,
 }
 
 impl<'a, 'b, 'c, const NE: usize, C> ReportDataResponder<'a, 'b, 'c, NE, C>
@@ -1900,6 +1905,7 @@ where
             invoker,
             event_reader,
             events,
+            sent: false,
         }
     }
 
@@ -2192,6 +2198,8 @@ where
             .exchange()
             .send(OpCode::ReportData, wb.as_slice())
             .await?;
+
+        self.sent = true;
 
         let cont = match state {
             ReportDataChunkState::ChunkingAttributes => {
